@@ -323,6 +323,41 @@ impl Scenario for C06 {
     }
 
     fn probe(&self, ctx: &Ctx, m: &Model, out: &mut StepOut) {
+        self.role_queries(ctx, m, out);
+        // entry points the check does not drive by name: called with nobody's authorisation they
+        // must leave every role and every administered setting where it was
+        let w = &ctx.w;
+        let (dir, known): (&str, &[&str]) = match ctx.kind {
+            0 => ("/repo/contracts/axelar-gateway/src", &axmc::inventory::GATEWAY_KNOWN),
+            1 => ("/repo/contracts/axelar-gas-service/src", &axmc::inventory::GAS_KNOWN),
+            2 => ("/repo/contracts/axelar-operators/src", &axmc::inventory::OPERATORS_KNOWN),
+            3 => ("/repo/contracts/interchain-token-service/src", &axmc::inventory::ITS_KNOWN),
+            _ => ("/repo/contracts/interchain-token/src", &axmc::inventory::TOKEN_KNOWN),
+        };
+        let addresses = [ctx.p[3].clone(), ctx.p[2].clone(), ctx.target.clone()];
+        let targets: [(&Address, &str, &[&str]); 1] = [(&ctx.target, dir, known)];
+        for (contract, func, args) in axmc::inventory::unknown_calls(w, "C06", &targets, &addresses, 32) {
+            let snap = w.snap();
+            let call = w.call(&contract, &func, &args, Auth::Nobody);
+            if call.ok {
+                let mut o = StepOut::default();
+                self.role_queries(ctx, m, &mut o);
+                out.checks += o.checks;
+                for mm in o.mismatches {
+                    out.fail("unknown-entry-point.changed-administration", format!("after `{}` (not among the known entry points) was called with nobody's authorisation: {} :: {}", func, mm.sig, mm.detail));
+                }
+            }
+            w.restore(&snap);
+        }
+    }
+
+    fn must_succeed_kinds(&self) -> Vec<&'static str> {
+        vec!["role-transfer", "upgrade-migrate", "admin-op"]
+    }
+}
+
+impl C06 {
+    fn role_queries(&self, ctx: &Ctx, m: &Model, out: &mut StepOut) {
         let w = &ctx.w;
         let p = &ctx.p;
         let q = w.query(&ctx.target, "owner", &[]);
@@ -367,9 +402,6 @@ impl Scenario for C06 {
         }
     }
 
-    fn must_succeed_kinds(&self) -> Vec<&'static str> {
-        vec!["role-transfer", "upgrade-migrate", "admin-op"]
-    }
 }
 
 fn main() {
@@ -377,7 +409,7 @@ fn main() {
         let mut o = Opts::new(tier, if tier == "thorough" { 14 } else { 9 });
         o.min_depth = 4;
         o.xcheck = tier == "thorough";
-        o.rule = "per contract (gateway, gas service, operators, ITS, interchain token): every administrative entry point (ownership / operatorship transfer to a successor, to self and back, to the all-zero account and to the contract itself (after which every administrative call is refused for every authoriser); upgrade; migrate; operator-bypass rotation with a proof from the latest and from an older retained set; a non-bypass rotation (refused for every authoriser until the minimum delay has passed since the last rotation of either kind, accepted for every authoriser afterwards); collect_fees; refund (also of amount 0 and -1, which nobody but the collector may get accepted); add/remove operator; set/remove trusted chain; add/remove minter; owner mint; set_admin) x every candidate authoriser {initial owner, initial operator/collector, successor/beneficiary, stranger, nobody, the current holder signing altered arguments, the current holder authorising the same call on a twin contract}; all histories to fixpoint (payouts / mints / rotations bounded to 3); role queries and the affected configuration compared after every new state".into();
+        o.rule = "per contract (gateway, gas service, operators, ITS, interchain token): every administrative entry point (ownership / operatorship transfer to a successor, to self and back, to the all-zero account and to the contract itself (after which every administrative call is refused for every authoriser); upgrade; migrate; operator-bypass rotation with a proof from the latest and from an older retained set; a non-bypass rotation (refused for every authoriser until the minimum delay has passed since the last rotation of either kind, accepted for every authoriser afterwards); collect_fees; refund (also of amount 0 and -1, which nobody but the collector may get accepted); add/remove operator; set/remove trusted chain; add/remove minter; owner mint; set_admin) x every candidate authoriser {initial owner, initial operator/collector, successor/beneficiary, stranger, nobody, the current holder signing altered arguments, the current holder authorising the same call on a twin contract}; all histories to fixpoint (payouts / mints / rotations bounded to 3); role queries and the affected configuration compared after every new state, and again after every exported function the check does not drive by name has been called unauthorised".into();
         (C06, o)
     });
 }
